@@ -124,16 +124,29 @@ def classify(rec):
         # ... and the first address of the range is then never offered
         return "static-outside-pool-marks-offset0"
 
-    if act == "AddStatic" and why == "state" and not (newprob - {"ipindex:miss", "dns:hostbyip", "dns:ipbyhost"}):
-        acc = [w for w in want if w["K"] == "ok"]
-        if reply == "ok" and len(acc) == 1:
-            # rmDynamicLease skips the element that follows a removed one
-            accls = [x.split("/") for x in acc[0]["Dst"].split(",") if x]
-            accls = [[m, int(i), int(f), h] for m, i, f, h in accls]
-            extra = _minus(ls, accls)
-            missing = _minus(accls, ls)
-            if extra and not missing and all(e[2] < 2 and (e[0] == a["m"] or e[1] == a["a"]) for e in extra):
-                return "addstatic-leaves-dynamic-lease"
+    if act == "AddStatic" and why == "state" and reply == "ok" \
+            and not (newprob - {"ipindex:miss", "dns:hostbyip", "dns:ipbyhost", "bitset:+0"}):
+        # rmDynamicLease skips the element that follows a removed one: a lease
+        # of the same client / on the same address survives next to the new
+        # reservation (it should have been evicted, or have blocked the call)
+        ns = (a["m"], a["a"], 3, a["h"])
+        rest = [tuple(l) for l in ls]
+        if ns in rest:
+            rest.remove(ns)
+            srcl = [tuple(l) for l in src]
+            ok = True
+            for l in rest:
+                named = (l[0], l[1], l[2], a["h"])
+                if l in srcl:
+                    srcl.remove(l)
+                elif a["h"] != "" and l[3] == "" and named in srcl:
+                    srcl.remove(named)
+                else:
+                    ok = False
+            removed = srcl
+            survivors = [l for l in rest if l[0] == a["m"] or l[1] == a["a"]]
+            if ok and survivors and all(r[2] < 2 and (r[0] == a["m"] or r[1] == a["a"]) for r in removed):
+                return "addstatic-leaves-conflicting-lease"
     if act == "AddStatic" and why == "state" and reply == "err" \
             and not (newprob - {"disk:differs", "hostindex:extra"}):
         # a refused reservation has already removed / renamed other leases
@@ -149,7 +162,8 @@ def classify(rec):
         if ok and not came:
             return "addstatic-error-after-mutation"
 
-    if act == "Restart" and why == "state" and not (newprob - {"disk:differs"}):
+    static_out = any(l[2] == 3 and l[1] in outs for l in ls) and not any(l[1] == pool0 for l in ls)
+    if act == "Restart" and why == "state" and not (newprob - {"disk:differs"} - ({"bitset:+0"} if static_out else set())):
         # leases that were never acknowledged come back with a generated name
         disk = rec.get("srcdisk") or []
         want_ls = [[l[0], l[1], l[2], ("g%d" % l[1]) if (l[2] == 0 and l[3] == "") else l[3]] for l in disk]
